@@ -266,9 +266,10 @@ func (x *Exec) run() {
 	x.entry = st.clone()
 	// cover: the precondition must be satisfiable
 	vc.obls = append(vc.obls, &Obligation{Name: vc.fn + "#cover.pre", Kind: "cover", Func: vc.fn, PC: st.pc, Goal: tFalse, Cover: true, Text: "precondition satisfiable"})
+	x.collectDefers(st)
 	f := x.block(st, x.fd.Body.List)
 	if f.next != nil {
-		x.rets = append(x.rets, f.next)
+		x.rets = append(x.rets, x.runDefers(f.next))
 	}
 	if len(f.breaks)+len(f.conts)+len(f.lbreaks)+len(f.lconts)+len(f.gotos) > 0 {
 		for k := range f.gotos {
